@@ -58,7 +58,11 @@ func (gw *eventBasedGateway) run(ctx context.Context, sender tracing.ISenderHand
 				terminationChannels := make(map[schema.IdRef]chan bool)
 				for _, sequenceFlow := range sequences {
 					if idPtr, present := sequenceFlow.Id(); present {
-						terminationChannels[*idPtr] = make(chan bool)
+						// buffered: the winner must not wait for a loser to
+						// receive its termination notice - a loser whose own event
+						// fired at the same moment has already left (it lost the
+						// compare-and-swap) and never reads the channel
+						terminationChannels[*idPtr] = make(chan bool, 1)
 					} else {
 						err := errors.NotFoundError{
 							Expected: sequenceFlow,
